@@ -389,7 +389,7 @@ class FakePoll(object):
         states = [s for s in states if s is not None]
 
         def ready():
-            return [(s.fd, 1) for s in states if s.readable()]
+            return self._ready(states)
 
         w.run_due()
         r = ready()
@@ -415,6 +415,67 @@ class FakePoll(object):
             r = ready()
             if r:
                 return r
+
+
+    def _ready(self, states):
+        return [(s.fd, 1) for s in states if s.readable()]
+
+
+class FakeEpoll(FakePoll):
+    """select.epoll over the same socket model, for a tree whose default
+    selector is built on it.  Level-triggered unless EPOLLET was registered;
+    an edge-triggered descriptor is reported once per arrival (data, FIN or
+    reset), as the kernel does, not for as long as something is unread."""
+    IN, PRI, ERR, HUP, RDHUP, ET = 1, 2, 8, 16, 0x2000, 1 << 31
+
+    def __init__(self, world):
+        FakePoll.__init__(self, world)
+        self._seen = {}
+        self.closed = False
+
+    def modify(self, fd, events):
+        self._fds[fd] = events
+
+    def close(self):
+        self.closed = True
+
+    def fileno(self):
+        return 1 << 20
+
+    def poll(self, timeout=None, maxevents=-1):
+        if timeout is not None and timeout >= 0:
+            timeout = timeout * 1000.0
+        else:
+            timeout = None
+        r = FakePoll.poll(self, timeout)
+        if maxevents is not None and maxevents > 0:
+            r = r[:maxevents]
+        for fd, _ in r:
+            st = self._w.by_fd.get(fd)
+            if st is not None:
+                self._seen[fd] = self._generation(st)
+        return r
+
+    @staticmethod
+    def _generation(s):
+        return (s.avail_total, s.in_eof, s.in_rst, s.dead)
+
+    def _ready(self, states):
+        out = []
+        for s in states:
+            if not s.readable():
+                continue
+            ev = self._fds.get(s.fd, 0)
+            if ev & self.ET and self._seen.get(s.fd) == self._generation(s):
+                self._w.fired('edge_triggered_not_reported_again')
+                continue
+            flags = self.IN if s.inq else 0
+            if s.in_eof:
+                flags |= self.RDHUP | self.IN
+            if s.in_rst or s.dead:
+                flags |= self.HUP | self.ERR
+            out.append((s.fd, flags or self.IN))
+        return out
 
 
 # ---------------------------------------------------------------------------
@@ -1053,10 +1114,17 @@ class _TimeNS(object):
 
 class _SelectNS(object):
     POLLIN, POLLPRI, POLLERR, POLLHUP = 1, 2, 8, 16
+    EPOLLIN, EPOLLPRI, EPOLLERR, EPOLLHUP = 1, 2, 8, 16
+    EPOLLRDHUP, EPOLLET, EPOLLONESHOT = 0x2000, 1 << 31, 1 << 30
+    error = OSError
 
     @staticmethod
     def poll():
         return FakePoll(CURRENT)
+
+    @staticmethod
+    def epoll(*a, **kw):
+        return FakeEpoll(CURRENT)
 
 
 class _Environ(object):
@@ -1284,8 +1352,18 @@ def install():
     lomond.session.threading = _ThreadingNS
     lomond.events.time = _TimeNS
     lomond.selectors.select = _SelectNS
-    class TrackedPollSelector(lomond.selectors.PollSelector):
-        """The real PollSelector; only counts construction and close()."""
+    # the selector class the tree itself picks on this platform (decided at
+    # import time with the real select module): PollSelector on Linux.  A
+    # tree that makes another one the default gets that one, over the
+    # simulated select.poll / select.epoll
+    _base = lomond.selectors.PlatformSelector
+    if _base in (getattr(lomond.selectors, 'SelectSelector', None),
+                 getattr(lomond.selectors, 'KQueueSelector', None)) or \
+            not isinstance(_base, type):
+        _base = lomond.selectors.PollSelector
+
+    class TrackedPollSelector(_base):
+        """The real selector class; only counts construction and close()."""
 
         def __init__(self, socket):
             self._world = CURRENT
